@@ -10,7 +10,7 @@ package main
 //     Props/C12Facts.lean compares them with what the source says now;
 //   - the argument of strings.HasSuffix that computes forceFragment;
 //   - that ResolveReference combines the flags as `iri.forceFragment || ref.forceFragment`;
-//   - the string literals compared with `elem` in resolvePath (the dot segments).
+//   - the set of string literals compared with `elem` in resolvePath (the dot segments).
 // Anything outside these shapes is emitted as "unknown" and makes the consuming theorem fail.
 
 import (
@@ -20,6 +20,7 @@ import (
 	"go/token"
 	"os"
 	"path/filepath"
+	"sort"
 	"strconv"
 	"strings"
 )
@@ -176,6 +177,15 @@ func genC12(leanRoot string) {
 			})
 		}
 	}
+	// as a set: the order of comparisons is a matter of style
+	sort.Strings(dotLits)
+	uniq := dotLits[:0]
+	for i, l := range dotLits {
+		if i == 0 || l != dotLits[i-1] {
+			uniq = append(uniq, l)
+		}
+	}
+	dotLits = uniq
 	var sb strings.Builder
 	sb.WriteString("-- GENERATED by /verif/go/cmd/extract (gen_c12.go) from iri/parsed_iri.go (T2: go/ast facts). Do not edit.\n")
 	sb.WriteString("namespace RdfModel.Gen.IRIFacts\n\n")
@@ -198,7 +208,7 @@ func genC12(leanRoot string) {
 	fmt.Fprintf(&sb, "/-- the non-empty schemes excluded by that guard (kept hierarchical), as bytes -/\ndef hierarchicalSchemes : List (List Nat) :=\n  [%s]\n\n", strings.Join(schemes, ", "))
 	fmt.Fprintf(&sb, "/-- second argument of strings.HasSuffix(s, …) computing forceFragment in ParseIRI -/\ndef forceFragmentSuffix : String := %s\n\n", strconv.Quote(hasSuffix))
 	fmt.Fprintf(&sb, "/-- how ResolveReference combines the flags -/\ndef forceFragmentCombine : String := %s\n\n", strconv.Quote(forceCombine))
-	fmt.Fprintf(&sb, "/-- literals compared with `elem` in resolvePath, in source order -/\ndef resolvePathElemLiterals : List String :=\n  %s\n\n", q(dotLits))
+	fmt.Fprintf(&sb, "/-- literals compared with `elem` in resolvePath (sorted set) -/\ndef resolvePathElemLiterals : List String :=\n  %s\n\n", q(dotLits))
 	sb.WriteString("end RdfModel.Gen.IRIFacts\n")
 	writeIfChanged(filepath.Join(leanRoot, "RdfModel", "Gen", "IRIFacts.lean"), sb.String())
 }
